@@ -151,6 +151,10 @@ Proof.
   rewrite Hss1, N.eqb_refl. cbn [andb].
   pose proof (iter_count_val (spec_state c init pre) _ Hsi Hm) as Hv. cbn [spec_state s_store s_size] in Hv. fold m in Hv.
   rewrite Hv, N.eqb_refl. cbn [andb].
+  assert (Hlast : last (sizes_of c pre k) 0 = last_size c pre).
+  { unfold last_size. rewrite Hlen. destruct k as [|k']; [reflexivity|].
+    unfold sizes_of. rewrite seq_S, map_app. cbn [map Nat.add]. apply last_last. }
+  rewrite Hlast, !N.eqb_refl. cbn [andb].
   destruct (c_size c) as [sz|] eqn:Es; [|reflexivity].
   rewrite (sizes_of_explicit c pre sz k Ht Es). rewrite all_eq_repeat. cbn [andb].
   unfold calls_per_thread. cbn [spec_state s_sizes]. rewrite Hlen, (sizes_of_explicit c pre sz k Ht Es), sum_repeat.
